@@ -24,6 +24,7 @@ ALLOW = {  # callee -> allowed caller regex
 
 def run(db, chk):
     directory_entry_rule(db, chk)
+    chmod_path_rule(db, chk)
     fns = [f for f in db.by_crate["gix_worktree_state"] if f.kind != "promoted"]
     chk.floor("gix_worktree_state functions", len(fns), 60)
     forb_alive = sum(1 for c_ in ("gix_fs", "gix_odb", "gix_ref") for f in db.by_crate[c_] for c in f.calls() if c.is_(FORBIDDEN))
@@ -149,3 +150,34 @@ def directory_entry_rule(db, chk):
     chk.ob("directory-entered-only-after-verification", "StackDelegate::push_directory (gix_fs::Stack has %d site(s) that enter a directory the delegate never saw as one)" % len(unverified),
            ok, "%s: a symlink checked out as `a` followed by an entry `a/b` makes the checkout place `b` behind the symlink, outside of the worktree" % why,
            "%s:%d" % (sd.file, sd.line), key="dir-entry-verified|StackDelegate::push_directory")
+
+
+def chmod_path_rule(db, chk):
+    """finalize_entry() may chmod BY PATH (symlink_metadata + set_permissions).  The only paths that have been validated and are inside the
+    destination are those the path stack handed out (Stack::at_path / at_entry -> .path()).  For every call of finalize_entry the path argument
+    derives from such a call - or the request can never be made: the `needs_executable_bit` of every DelayedFilteredStream that feeds that call
+    is the constant false.  (The delayed-filter path passes the index-relative entry path, which is resolved against the process's working
+    directory; it is dead only as long as that flag is constant.)"""
+    fns = [f for f in db.by_crate["gix_worktree_state"] if f.kind != "promoted"]
+    calls_ = [(f, c) for f in fns for c in f.calls() if c.is_(r"checkout::entry::finalize_entry$")]
+    chk.floor("calls of finalize_entry", len(calls_), 2)
+    builds = [(f, rv, ln) for f in fns for bi, si, pl, rv, ln, mc in f.assigns() if rv[0] == "agg" and rv[1] == "adt" and rv[2].endswith("DelayedFilteredStream") and "needs_executable_bit" in rv[5]]
+    chk.floor("constructions of DelayedFilteredStream", len(builds), 1)
+    flag_const_false = all("p" not in rv[4][rv[5].index("needs_executable_bit")] and rv[4][rv[5].index("needs_executable_bit")].get("v") == 0 for f, rv, ln in builds)
+    for f, c in calls_:
+        fl = Flow(f)
+        fam = {g.name: g for g in db.closures_of(f)}
+        roots = set(fl.roots(c.args[2], stop_named=False)) if len(c.args) > 2 and "p" in c.args[2] else set()
+        validated = any(r[0] == "call" and re.search(r"Stack>?::at_path$|Stack>?::at_entry$|Platform<'_>>::path$|stack::Platform.*::path$", r[1]) for r in roots)
+        # a closure handed to bool::then(..) computes the path: look into it
+        for r in list(roots):
+            if r[0] == "const" and isinstance(r[1], str) and r[1].startswith("agg:"):
+                g = fam.get(r[1][4:].rstrip(":"))
+                if g is not None and any(x.is_(r"Stack>?::at_path$|Stack>?::at_entry$") for x in g.calls()):
+                    validated = True
+        delayed = "delayed" in f.name or any(r[0] in ("arg", "var") and any("delayed" in str(x) for x in r) for r in roots) or "process_delayed_filter_results" in f.name
+        ok = validated or (delayed and flag_const_false)
+        chk.ob("chmod-only-on-validated-path", "%s finalize_entry@%d" % (f.name.split("::")[-1], c.line), ok,
+               "the path finalize_entry() may chmod does not come from the validated path stack%s: a 100755 entry answered later by a delaying filter chmods `<cwd>/<entry path>` - a file outside the destination" % (
+                   "" if not delayed else ", and needs_executable_bit of the delayed entry is no longer the constant false"),
+               c.where(), key="chmod-path|%s" % f.name.split("::")[-1])
